@@ -1160,7 +1160,7 @@ Theorem lists_cover_run_refuted :
 Proof.
   destruct (run_current wit_opts wit_ids wit_samples wit_cs) as [out|] eqn:Er; [|vm_compute in Er; discriminate].
   exists wit_opts, wit_ids, wit_samples, wit_cs, out.
-  split; [vm_compute; reflexivity|]. split; [reflexivity|].
+  split; [vm_compute; reflexivity|]. split; [exact Er|].
   vm_compute in Er; injection Er as <-; split.
   - intros [calls [HF Hfile]]; apply Forall2_map_opt in HF.
     vm_compute in HF; injection HF as <-; vm_compute in Hfile; discriminate.
@@ -1180,6 +1180,6 @@ Proof.
   destruct (run PerRun PerRun current_posrule wit_opts wit_ids wit_samples wit_cs) as [out|] eqn:Er;
     [|vm_compute in Er; discriminate].
   exists wit_opts, wit_ids, wit_samples, wit_cs, out.
-  split; [vm_compute; reflexivity|]. split; [reflexivity|].
+  split; [vm_compute; reflexivity|]. split; [exact Er|].
   vm_compute in Er; injection Er as <-; vm_compute; discriminate.
 Qed.
